@@ -471,6 +471,45 @@ example :
     let c' := (c.writes [("a", 7, 5011)]).deleteKeys ks 11
     ks = ["a", "b"] ∧ c' "a" = some (7, 5011) ∧ c' "b" = none := by decide
 
+/-! ### reads are read-only
+
+`Cache.get`, `shouldTransmit`, `shouldProcess`, `proposalAllowed` and the filters take a state and
+return an answer — no state: in the model a read cannot change any later answer (the fact
+extractor is asked to check that `Cache.Get` calls neither `Delete` nor `Set`).  The two theorems
+say why that matters: an evicting `Get` would be harmless only as ONE atomic step. -/
+
+/-- an evicting `Get` executed atomically answers like `Get` and leaves every later `Get` unchanged -/
+theorem evicting_get_atomic_invisible {α : Type} (c : Cache α) (k k' : String) (now now' : Nat) (h : now ≤ now') :
+    (c.getEvict k now).1 = c.get k now ∧ ((c.getEvict k now).2).get k' now' = c.get k' now' := by
+  unfold Cache.getEvict Cache.get
+  cases hk : c k with
+  | none => simp [hk]
+  | some p =>
+    obtain ⟨v, e⟩ := p
+    cases hx : expired e now with
+    | false => simp [hx, hk]
+    | true =>
+      have hx' := expired_mono (d := now' - now) hx
+      rw [show now + (now' - now) = now' by omega] at hx'
+      by_cases hkk : k' = k
+      · subst hkk; simp [hx, hk, hx']
+      · simp [hx, hkk]
+
+/-- **evict_on_read_race_drops_fresh_record** — but read and delete are two steps (the read lock is
+    released in between): a reader finds the expired record of `w`, `Accept(w, 3)` rewrites it, the
+    reader deletes the key.  `Accept` answered true and the log says `(w, 3)` is awaited, yet the
+    report is no longer offered for transmission (and `w` would be processed again). -/
+theorem evict_on_read_race_drops_fresh_record :
+    let cfg : Cfg := ⟨0, 5000⟩
+    let sys1 := run cfg [.accept "w" 7, .advance 5001]              -- record expired, not collected
+    let seenExpired := (sys1.st.cache.get "w" sys1.st.now).isNone    -- reader, step 1
+    let sys2 := stepAccept cfg sys1 "w" 3                            -- Accept in between: succeeds
+    let st3 := { sys2.st with cache := sys2.st.cache.deleteKeysOld ["w"] }   -- reader, step 2: Delete
+    seenExpired = true ∧ sys2.log.head? = some (.accept 5001 "w" 3 true) ∧
+    transmitOk cfg sys2.log st3.now "w" 3 = true ∧ shouldTransmit sys2.st "w" 3 = true ∧
+    shouldTransmit st3 "w" 3 = false := by
+  decide
+
 /-! ### the reading "seen = processed while the record existed" is the weaker one -/
 
 /-- **visited_masks_old_event** — the stronger reading ("no sufficiently confirmed event
